@@ -205,7 +205,14 @@ func Harness_C07_p2p_create_modes() {
 		st.users[u] = &types.User{State: types.StateOK, Access: da}
 		st.users[u].SetUid(u)
 	}
-	switch verifChoose("existing", 3) {
+	switch verifChoose("existing", 4) {
+	case 3: // plain reload: both subscriptions are there, each with its own arbitrary (sane) modes
+		st.topics[name] = &types.Topic{ObjHeader: types.ObjHeader{Id: name}}
+		for _, u := range []types.Uid{a, b} {
+			st.subs[verifSubKey(name, u)] = &types.Subscription{User: u.String(), Topic: name,
+				ModeWant:  (verifMode("storedWant") & types.ModeCP2P) | types.ModeApprove,
+				ModeGiven: (verifMode("storedGiven") & types.ModeCP2P) | types.ModeApprove}
+		}
 	case 1: // the topic exists, only the responder's subscription is there (the requester had left)
 		st.topics[name] = &types.Topic{ObjHeader: types.ObjHeader{Id: name}}
 		st.subs[verifSubKey(name, b)] = &types.Subscription{User: b.String(), Topic: name, ModeWant: types.ModeCP2P, ModeGiven: types.ModeCP2P}
